@@ -133,6 +133,10 @@ func (msg *Message) UnmarshalXML(d *xml.Decoder, start xml.StartElement) error {
 					err = d.DecodeElement(&msg.Subject, &tt)
 				case "error":
 					err = d.DecodeElement(&msg.Error, &tt)
+				default:
+					// Unknown child: consume it entirely, so that nothing nested in it is
+					// mistaken for a child (or for the end) of this stanza.
+					err = d.Skip()
 				}
 				if err != nil {
 					return err
